@@ -11,7 +11,11 @@ import lib  # noqa: E402
 
 
 def setup():
+    import fcntl
     import translate
+    os.makedirs(lib.BUILD, exist_ok=True)
+    lock = open(os.path.join(lib.BUILD, ".lock"), "w")
+    fcntl.flock(lock, fcntl.LOCK_EX)
     ch, _ = translate.generate(lib.REPO, os.path.join(lib.COQ, "generated"))
     lib.write_coqproject()
     rc, out, err = lib.run(["coq_makefile", "-f", "_CoqProject", "-o", "Makefile"], 120, cwd=lib.COQ)
